@@ -662,7 +662,10 @@ fn rt_scalars(t: &mut Tape<'_>, o: &mut Obs) -> R {
     dispatch!(t, roundtrip(t, o, false);
         Ints, Ints2, (), (u8,), ((), (u16,)), (bool, Option<bool>, Option<Option<u8>>), u64, i8, usize, isize, bool,
         [u16; 0], [u8; 1], [u32; 7], [Option<u8>; 3], [(u8, bool); 2], [[u8; 2]; 3],
-        PhantomData<u64>, (PhantomData<String>, u8), BigInt<1>, BigInt<4>, (BigInt<2>, BigUint), BigUint, Option<BigUint>)
+        PhantomData<u64>, (PhantomData<String>, u8), BigInt<1>, BigInt<4>, (BigInt<2>, BigUint), BigUint, Option<BigUint>,
+        // every tuple arity the library implements (0..=5), with same-typed and differently-typed components
+        (u8, u8), (u16, u16, u16), (u8, u8, u8, u8), (u8, u16, u32, u64), (i8, i8, i8, i8, i8), (u64, bool, u8, Option<u8>),
+        (bool, String, Vec<u8>, Option<u8>), Vec<(u8, u8, u8, u8)>, BTreeMap<u8, (u8, u16, u8, u16)>, (Md, u8, Md, bool))
 }
 
 fn rt_seqs(t: &mut Tape<'_>, o: &mut Obs) -> R {
